@@ -324,7 +324,7 @@ func H_C02_MetaLeaseSetSpec() {
 	}
 }
 
-// H_C02_MetaLeaseSetHeader: the MetaLeaseSet HEADER per specification (destination, published, expires, flags, offline signature BEFORE the options mapping) with entries in the implementation's own entry layout (the entry layout itself deviates from the specification: recorded known finding of H_C02_MetaLeaseSetSpec).  Keeps header-level changes visible although the entry-level finding is known.
+// H_C02_MetaLeaseSetHeader: the MetaLeaseSet HEADER per specification (destination, published, expires, flags, offline signature BEFORE the options mapping) with 1 or 16 entries in the implementation's own entry layout (the entry layout itself deviates from the specification: recorded known finding of H_C02_MetaLeaseSetSpec).  Keeps header-level changes visible although the entry-level finding is known.
 //
 //verif:props C02
 //verif:witness accepted
@@ -345,7 +345,12 @@ func H_C02_MetaLeaseSetHeader() {
 	if offline {
 		sigLen = tsl
 	}
-	total += ml + 1 + 40 + sigLen
+	// one entry, or (plain header, no options) the maximum of 16
+	ne := 1
+	if !offline && len(ks) == 0 && nd.Bool() {
+		ne = 16
+	}
+	total += ml + 1 + 40*ne + sigLen
 	in := nd.Bytes(total + 1)
 	pinDest(in, 0, 7, 4, 0)
 	if offline {
@@ -360,11 +365,13 @@ func H_C02_MetaLeaseSetHeader() {
 		p += 6 + tp + 64
 	}
 	p += putMapping(in, p, ks, vs)
-	pin(in, p, 1)
+	pin(in, p, byte(ne))
 	entAt := p + 1
-	pin(in, entAt+32, 3)
-	pin(in, entAt+38, 0, 0)
-	sigAt := entAt + 40
+	for i := 0; i < ne; i++ {
+		pin(in, entAt+40*i+32, 3)
+		pin(in, entAt+40*i+38, 0, 0)
+	}
+	sigAt := entAt + 40*ne
 	m, rem, err := meta_leaseset.ReadMetaLeaseSet(in)
 	nd.Assert(err == nil, "metaheader/spec-header-accepted")
 	if err != nil {
@@ -372,6 +379,7 @@ func H_C02_MetaLeaseSetHeader() {
 	}
 	nd.Cover("accepted")
 	nd.Assert(len(rem) == 1, "metaheader/consumes-exactly-the-encoding")
+	nd.Assert(m.NumEntries() == ne, "metaheader/entry-count")
 	d := m.Destination()
 	db, _ := d.Bytes()
 	nd.Assert(bytes.Equal(db, in[:391]), "metaheader/destination")
